@@ -2,6 +2,14 @@
 PENDING_REASON = "static rules designed in DESIGN.md §3 but the check is not registered yet (under construction)"
 
 CLAIMS = {
+    "C03": {
+        "technique": "static analysis: transitive effect analysis (mutation origin, I/O, nondeterminism), def-use chain of the stage pipeline, guard-fact/reaching-definition shape of the numeric kernels, constructor provenance, order-dependent-fold and key-injectivity rules",
+        "text": "Decides on t4.py: t4_filter and its callees are effect-free and read nothing but their arguments; approved_deltas is, on every return, sorted(canonical key) of "
+                "churn_cap(l2_scale(novelty_clamp(cooldown_filter(combine(plan deltas))))); each kernel establishes its bound by construction (+-cap or guarded pass-through; cap/norm factor only where "
+                "norm>cap; first k of a sort by (-|d|, canonical key) or the input where n<=k; op_idx not in blocked_ops, blocked = (turn-last) < cooldown, reported sorted); constructed deltas copy their "
+                "target from an input delta; duplicates are merged by an order-insensitive sum under an injective key and every stage output is canonical-ordered or sorted by a total key.",
+        "note": "Not decided: the numeric envelope to the last ulp under floating-point rounding (||.||_2 <= cap after scaling), NaN/inf/denormal magnitudes, and equality of outputs across permuted inputs as an executed law.",
+    },
     "C08": {
         "technique": "static analysis: who-may-touch classification of file operations, typestate over a statement CFG with exception edges, call-graph who-may-write, name-language disjointness",
         "text": "Decides, on every CFG path of clematis/io/atomic.py and for every writer in the durable-artefact modules, the structural "
